@@ -35,7 +35,7 @@ def main():
 # GROUPS-BEGIN (each group lives in tools/gen_<name>.py and registers itself)
 import importlib.util, glob
 for f in sorted(glob.glob(os.path.join(ROOT, "tools", "gen_*.py"))):
-    if os.path.basename(f) == "gen_manifest.py": continue
+    if os.path.basename(f) in ("gen_manifest.py",): continue
     spec = importlib.util.spec_from_file_location(os.path.basename(f)[:-3], f)
     mod = importlib.util.module_from_spec(spec)
     mod.group, mod.write_if_changed, mod.ROOT, mod.REPO = group, write_if_changed, ROOT, REPO
